@@ -16,31 +16,31 @@ checks = {
          'exhaustive for the stated expression bound only; deviations are a fixed catalog of 30', 'DESIGN.md 3/C11'),
  'C20': ('exploration', 'Go race detector on a -race build of the harness + determinism oracle (byte equality with sequential baseline) + reflection fingerprint of the compiled module',
          'Each case runs in a fresh -race worker process: concurrent loads as the first action of the process, concurrent use of one shared module from separate browsers/stores (incl. concurrent FIRST use of a fresh module with union/leafref/enum leaves), and both mixed, for G in {2,8,32} and GOMAXPROCS in {2,4,16}; every other client also sends requests that are refused; the module exported as data and the copy overwritten must leave the module as it was. Race reports are collected from the detector logs and de-duplicated by innermost library frame pair; overlap of operations is measured with a logical clock and reported in the evidence.',
-         'happens-before detection only sees the interleavings that occurred; overlap counts are in the evidence file', 'DESIGN.md 3/C20'),
+         'happens-before detection only sees the interleavings that occurred; overlap counts are in the evidence file; loads also go through one source.EmbedDir opener shared by all goroutines (modules stored as name@revision.yang); the first-use module has unions of identityrefs whose first member has three bases', 'DESIGN.md 3/C20'),
  'C05': ('exploration', 'runtime monitor: independent membership evaluator (math/big intervals, code-point lengths, anchored patterns) vs error result and store content on 5 write paths',
          'For generated restriction chains (base type x up to 3 typedef levels; ranges with alternatives, open ends, min/max, 64-bit and decimal64 bounds; lengths; patterns incl. invert-match; enum/bits/identityref) every boundary candidate is written through Set, SetValue, JSON, XML and node sources; a value outside the effective type must be rejected and leave the stored value unchanged; no check may panic. Over-rejections are counted, not alarmed.',
-         'trusts the evaluator (regexp anchored, math/big); typed Set of enum/bits/identity labels is not asserted (conversion decides membership)', 'DESIGN.md 3/C05'),
+         'trusts the evaluator (regexp anchored, math/big); typed Set of enum/bits/identity labels is not asserted (conversion decides membership); leaf-list candidates are written alone, next to one member and between the lowest and highest member', 'DESIGN.md 3/C05'),
  'C06': ('exploration', 'runtime monitor: renderer-recorded denotations vs canonical dump through public accessors; dump equality across repeated loads and across worker processes',
          'Generated module texts cover the statement kinds and 6 quoting styles; the renderer records, for every argument, the exact string it denotes and where it must be read back; each expectation is looked up in the canonical dump. The same text is loaded 5 times in-process and in two different worker processes and the dumps must be identical.',
-         'trusts the renderer inverse (string escaping rules of RFC 7950 6.1.3); constructs the grammar rejects (empty bodies of statements with mandatory sub-statements, concatenation where the grammar takes a single token) are outside the generator domain', 'DESIGN.md 3/C06'),
+         'trusts the renderer inverse (string escaping rules of RFC 7950 6.1.3); constructs the grammar rejects (empty bodies of statements with mandatory sub-statements, concatenation where the grammar takes a single token) are outside the generator domain; two directed modules: conditions of the copies of a grouping node, sibling order under 13-40 augments', 'DESIGN.md 3/C06'),
  'C07': ('exploration', 'runtime monitor: model projection of the unconstrained tree vs token-decoded JSON of the constrained read (leaf path/value sets); store immutability; invalid values must error',
          'content, depth, fields, fc.xfields, with-defaults=trim, fc.range and fc.max-node-count singly, in pairs and triples, in one query or applied stepwise to an already constrained selection, on root / container / list / entry targets; the set of (path,value) leaves of the answer must equal the model projection; reads must not modify the store; invalid parameter values must be errors.',
-         'trusts the projection model (c07params.project); empty containers compared at info level; window convention [a,b); fc.range windows the named list only; invalid values also through Constrain', 'DESIGN.md 3/C07'),
+         'trusts the projection model (c07params.project); empty containers compared at info level; window convention [a,b); fc.range windows the named list only; invalid values also through Constrain; state data also inside cases of configuration choices', 'DESIGN.md 3/C07'),
  'C13': ('exploration', 'crash/hang monitor: recovered panics, worker death, per-input cpu+rss watchdog; store read-back after every request',
          'Hostile request content against valid schemas: JSON shape mismatches at every document position x 10 kinds, missing/duplicate keys, all truncations and single-character mutations of documents, paths and queries, grammar-fuzz catalogs for paths, queries and XPath, XML shape mismatches, SetValue with every Go kind; any panic, fatal error or cpu/memory overrun is a violation; read-only requests must leave the store unchanged and the store must stay exportable.',
-         'workers are separate processes; watchdog thresholds 20 s cpu / 3 GiB rss per input; targets: reference store and the reflection nodes over Go values', 'DESIGN.md 3/C13'),
+         'workers are separate processes; watchdog thresholds 20 s cpu / 3 GiB rss per input; targets: reference store and the reflection nodes over Go values (one in three nodeutil.Node stores with pass-through callbacks); lists without a key with the odd entry at every position', 'DESIGN.md 3/C13'),
  'C14': ('exploration', 'crash/hang monitor over corpus prefixes, token mutations, pathological shapes, reference cycles and opener faults; walker over every successful load',
          'Every byte prefix of every repository YANG file <= 2 KiB (token-boundary prefixes otherwise), sampled single/double token mutations, pathological nesting / concatenation / argument sizes, typedef / grouping / identity / import cycles and faulty openers are loaded in worker processes under panic recovery, fatal-error attribution and a per-input cpu/rss watchdog; every module that loads is walked through all public accessors.',
-         'exhaustive only in truncation points per corpus text; mutations sampled', 'DESIGN.md 3/C14'),
+         'exhaustive only in truncation points per corpus text; mutations sampled; two product families: deviation target x deviate form x sub-statement, extension body x host statement', 'DESIGN.md 3/C14'),
  'C16': ('exploration', 'runtime monitor: truth oracle (math/big, code-point order, enum value) for leaf OP literal vs visibility in reads, edits, where rows and filtered notification events; differential run without the condition',
          'All 6 operators x 12 operand types x catalog values straddling the literal x {set, unset, unset with default} x placement {when on container, leaf, leaf-list, list (per entry), uses (incl. nested uses), augment; operands behind paths of 2-3 segments and parent (..) steps; own + inherited conditions stacked; where on top-level and nested lists; filter on a scripted notification stream; when during an edit}.',
-         'literals inside the operand type; context node as the library documents (container: itself, leaf: parent); no absolute paths (not in the library grammar)', 'DESIGN.md 3/C16'),
+         'literals inside the operand type; context node as the library documents (container: itself, leaf: parent); no absolute paths (not in the library grammar); paths through a list whose entries have a when of their own (every list of up to three entries over visible/hidden x satisfies/does not)', 'DESIGN.md 3/C16'),
  'C19': ('exploration', 'runtime monitor: encoding/xml strict parse of writer output vs model tree; ReadXMLDoc round trip into a capture store; sibling interleavings of reference documents',
          'Both XML writers (and pretty printing) on generated trees with an XML-hostile text catalog, whitespace family, all leaf types, second-module namespaces, submodule nodes, a namespace URI with reserved characters, documents starting below the root; output must be a single-root well-formed document denoting the tree; importing it must reproduce the tree; 5 random sibling interleavings of a reference encoding must import to the same tree.',
-         'trusts encoding/xml; characters outside XML 1.0 excluded; namespace of grouping-derived nodes accepted as defining or using module', 'DESIGN.md 3/C19'),
+         'trusts encoding/xml; characters outside XML 1.0 excluded; namespace of grouping-derived nodes accepted as defining or using module; strings also reached through unions and unions inside unions', 'DESIGN.md 3/C19'),
  'C08': ('exploration', 'runtime monitor: model lookup oracle over every addressable node x path spelling x store; store immutability check',
          'For every container, list, entry and leaf of generated trees, Find with plain / module-qualified / trailing-slash / fully percent-encoded spellings, ../ paths from the node itself and paths with query parameters must select exactly the model node (schema identity, structured path chain, key values, exported content), the rendered path must lead back, absent keys select nothing, unknown names and names qualified with an unknown module are not-found errors.',
-         'trusts the model tree and net/url escaping; stores: reference store, JSON reader, XML document (key texts also in non-canonical spellings), nodeutil.Reflect / nodeutil.Node over Go maps, slices and structs; schemas with an augmenting module, a submodule, a prefix that differs from the module name', 'DESIGN.md 3/C08'),
+         'trusts the model tree and net/url escaping; stores: reference store, JSON reader, XML document (key texts also in non-canonical spellings), nodeutil.Reflect / nodeutil.Node over Go maps, slices and structs; schemas with an augmenting module, a submodule, a prefix that differs from the module name; enumeration keys whose names hold / , + % = and spaces', 'DESIGN.md 3/C08'),
  'C09': ('exploration', 'runtime monitor: invariant scan of the target store after every step of an upsert history + reference model (SwitchCase)',
          'After every upsert of histories of 2..12 steps that alternate cases (nested choices, shorthand cases, cases with leaves/leaf-lists/containers/lists, choices in lists) the store is scanned for choices holding data of two cases, compared with the model and exported.',
          'trusts dp.Apply/clearOtherCases (model); targets: reference store (also one that hands out nodes for containers holding nothing yet, and one whose new nodes hold data of a case already), nodeutil.Reflect and nodeutil.Node over Go maps (read back with package reflect)', 'DESIGN.md 3/C09'),
@@ -49,22 +49,22 @@ checks = {
          'trusts the recording wrapper (pass-through) and the reference store', 'DESIGN.md 3/C12'),
  'C18': ('exploration', 'runtime monitor: reference model (delete/replace) vs store read directly after every step + key-uniqueness scan + Find probes',
          'Histories of 3..15 delete / replace / insert / upsert operations (first, middle, last, only entry; whole list; container; delete-then-reinsert; several deletes through one held list selection; payloads stating another key than that of the addressed entry) are replayed against model and library; after each step the store equals the model, no list holds a duplicate key, the removed node is no longer found and remaining nodes are.',
-         'trusts dp.DeleteAt/Apply (model); stores: reference store, nodeutil.Reflect / nodeutil.Node over Go maps, slices and reflect.StructOf structs (zero value = unset in struct shape)', 'DESIGN.md 3/C18'),
+         'trusts dp.DeleteAt/Apply (model); stores: reference store, nodeutil.Reflect / nodeutil.Node over Go maps, slices and reflect.StructOf structs (zero value = unset in struct shape); one in three nodeutil.Node stores carries pass-through callbacks (all, or a single On* field)', 'DESIGN.md 3/C18'),
  'C03': ('exploration', 'runtime monitor: executable reference model (keyed deep merge) vs target store read directly; error class via errors.Is',
          'Every edit call on a generated (schema, target, source, strategy, entry point, direction, source implementation) tuple and on histories of up to 6 such calls is compared with an executable model written from the statement; the target is a harness store read without any library read path. Held on the executions observed.',
          'trusts the model dp.Apply (60 lines); targets: reference store and the reflection nodes over Go maps / slices / structs, sources also JSON / XML readers and map-shaped reflection nodes; every third schema has choices (the model ends the data of the other cases for every strategy); half of the JSON sources use RFC 7951 qualified names; domain: no when, key-preserving edits', 'DESIGN.md 3/C03'),
  'C04': ('exploration', 'runtime monitor: write-logging capture store + encoding/json token-stream decoder vs model tree; round trip through the library reader',
          'Exports of generated trees (all leaf types, nested/compound-key lists, choices, augmenting module) are captured by a store that logs every write (exactly-once, schema order) and JSON output is decoded token by token with the standard library and compared with the model; the writer output is fed back through ReadJSON and exported again.',
-         'trusts encoding/json and the model tree; decimal64 compared at float64 precision; every fourth case also exports from a reflection node over Go values', 'DESIGN.md 3/C04'),
+         'trusts encoding/json and the model tree; decimal64 compared at float64 precision; every fourth case also exports from a reflection node over Go values (one in three nodeutil.Node stores with pass-through callbacks), and reads a slice-backed list through a held selection after a keyed request (slice order)', 'DESIGN.md 3/C04'),
  'C10': ('exploration', 'runtime monitor: denotation oracle (math/big) over the product target format x source kind x boundary catalog',
          'Every val.Conv result for ~30k (format, source) pairs per run is compared with the arbitrary-precision denotation of the source: error, or exactly the same number/text/truth value/sequence; in-range natural sources must convert.',
-         'trusts math/big and strconv; decimal64 exactness is float64-nearest (documented representation)', 'DESIGN.md 3/C10'),
+         'trusts math/big and strconv; decimal64 exactness is float64-nearest (documented representation); sources include named Go types over every scalar kind', 'DESIGN.md 3/C10'),
  'C15': ('exploration', 'runtime monitor: encoding/json token-stream oracle on writer output + failing io.Writer fault injection at byte positions',
          'Writer output for 8 configurations x start selections (root, container, list, entry, leaf) over trees (augmenting module, submodule nodes) with a JSON-hostile string catalog and nesting up to 70 is parsed by the standard library and compared with the model (names, RFC 7951 qualification, typing, string decoding, pretty==compact tokens); a failing stream is injected at boundary byte positions and must surface as an error.',
          'trusts encoding/json; int64/uint64/decimal64 accepted as number or string of the same digits', 'DESIGN.md 3/C15'),
  'C17': ('exploration', 'runtime monitor: law checking of Compare/Equal against math/big denotations + keyed-lookup differential vs model list',
          'All 65536 pairs of both 8-bit formats and all pairs/triples over boundary sets of every other comparable format are checked against an arbitrary-precision denotation on every run; lookups on slice/map stores (all integer widths, string, boolean, composite tuples, binary, decimal64, enumeration and union keys) are compared with a model list. Held-on-what-was-observed, exhaustive only for the 8-bit tables.',
-         'trusts math/big, strings.Compare and the harness model list; wider formats are sampled at boundaries + seeded random values', 'DESIGN.md 3/C17'),
+         'trusts math/big, strings.Compare and the harness model list; wider formats are sampled at boundaries + seeded random values; unions of enumerations as keys; user-made Go maps whose key kind differs from that of the leaf (absent keys the map type cannot represent)', 'DESIGN.md 3/C17'),
 }
 not_impl_reason = 'check not implemented yet in this revision of /verif (see DESIGN.md for the planned monitor)'
 m = {
